@@ -11,6 +11,7 @@ import (
 	"fmt"
 	"sort"
 	"strings"
+	"time"
 
 	"ergo.services/ergo/gen"
 )
@@ -22,6 +23,7 @@ type c18payload struct{ N int }
 func runC18(c *Ctx) {
 	r := c.R
 	r.Rule = "puppet histories of 20-60 ops on one event: register(buffer 0..4, notify on/off) / publish(right or wrong token) / subscribe by link or monitor / unsubscribe / subscriber death / unregister / owner death, 2-4 consumers; " +
+		"two real nodes: 1-3 subscribers on the remote node (link, monitor or both) plus 0-2 local ones, 1-4 publications -> every subscriber sees every publication once, in order; " +
 		"every op outcome vs Model/Event; non-trivial = ≥2 subscribers present at a publication and the buffer wrapped at least once; distinct by op string"
 	k, err := NewK4("c18n")
 	if err != nil {
@@ -30,6 +32,7 @@ func runC18(c *Ctx) {
 	}
 	defer k.Stop()
 	c18witnesses(c, k)
+	c18remote(c)
 	n := c.N(100, 4000)
 	evSeq := 0
 	for it := 0; it < n; it++ {
@@ -520,4 +523,133 @@ func c18witnesses(c *Ctx, k *K4) {
 	k.Node.Kill(c2pid)
 	k.Quiesce()
 	k.resetPuppets()
+}
+
+// c18remote: subscribers on another node. The producer's node sends one frame per remote node and the receiving node
+// fans it out to its own subscribers: with k subscribers on one remote node every one of them must still see every
+// publication exactly once, in order.
+func c18remote(c *Ctx) {
+	r := c.R
+	p, err := newC14pair(false)
+	if err != nil {
+		r.Count("inconclusive.node-start")
+		r.Note("C18 remote: start failed: %v", err)
+		return
+	}
+	defer p.stop()
+	rounds := c.N(6, 80)
+	for it := 0; it < rounds; it++ {
+		prod, err := p.spawn(p.a)
+		if err != nil {
+			r.Count("inconclusive.spawn")
+			continue
+		}
+		name := gen.Atom(fmt.Sprintf("c18remote%d", it))
+		ev := gen.Event{Name: name, Node: p.nameA}
+		var tok gen.Ref
+		var rerr error
+		if !c14do(p.a, prod, 3*time.Second, func(a *c14actor) { tok, rerr = a.RegisterEvent(name, gen.EventOptions{}) }) || rerr != nil {
+			r.Count("inconclusive.register")
+			continue
+		}
+		nRemote := 1 + c.Rng.Intn(3)
+		nLocal := c.Rng.Intn(3)
+		if it == 0 {
+			nRemote, nLocal = 2, 0
+		}
+		type sub struct {
+			pid  gen.PID
+			node gen.Node
+			how  string
+		}
+		var subs []sub
+		ok := true
+		for i := 0; i < nRemote+nLocal; i++ {
+			n := p.b
+			if i >= nRemote {
+				n = p.a
+			}
+			sp, err := p.spawn(n)
+			if err != nil {
+				ok = false
+				break
+			}
+			how := []string{"link", "monitor", "both"}[c.Rng.Intn(3)]
+			var e1, e2 error
+			if !c14do(n, sp, 5*time.Second, func(a *c14actor) {
+				if how != "monitor" {
+					_, e1 = a.LinkEvent(ev)
+				}
+				if how != "link" {
+					_, e2 = a.MonitorEvent(ev)
+				}
+			}) || e1 != nil || e2 != nil {
+				ok = false
+				r.Note("C18 remote: subscribe failed: %v %v", e1, e2)
+				break
+			}
+			subs = append(subs, sub{sp, n, how})
+		}
+		if !ok {
+			r.Count("inconclusive.subscribe")
+			continue
+		}
+		m := 1 + c.Rng.Intn(4)
+		for v := 0; v < m; v++ {
+			v := v
+			c14do(p.a, prod, 3*time.Second, func(a *c14actor) { a.SendEvent(name, tok, int64(v)) })
+		}
+		seqOf := func(pid gen.PID) []int64 {
+			var out []int64
+			for _, x := range p.rec.at(pid) {
+				if me, ok := x.(gen.MessageEvent); ok && me.Event == ev {
+					if n, ok := me.Message.(int64); ok {
+						out = append(out, n)
+					}
+				}
+			}
+			return out
+		}
+		waitUntil(3*time.Second, func() bool {
+			for _, s := range subs {
+				if len(seqOf(s.pid)) < m {
+					return false
+				}
+			}
+			return true
+		})
+		time.Sleep(30 * time.Millisecond) // room for duplicates to arrive
+		var hows []string
+		for _, s := range subs {
+			hows = append(hows, s.how)
+		}
+		rp := map[string]interface{}{"remote_subscribers": nRemote, "local_subscribers": nLocal, "how": hows, "publications": m}
+		for i, s := range subs {
+			got := seqOf(s.pid)
+			where := "remote"
+			if i >= nRemote {
+				where = "local"
+			}
+			want := make([]int64, m)
+			for v := range want {
+				want[v] = int64(v)
+			}
+			switch {
+			case fmt.Sprint(got) == fmt.Sprint(want):
+			case len(got) > m:
+				r.Violation("C18/remote-duplicate", fmt.Sprintf("%s subscriber %d (%s) of an event with %d remote and %d local subscribers received %v for the publications %v", where, i, s.how, nRemote, nLocal, got, want), rp)
+			case len(got) < m:
+				r.Violation("C18/remote-missed", fmt.Sprintf("%s subscriber %d (%s) received %v for the publications %v", where, i, s.how, got, want), rp)
+			default:
+				r.Violation("C18/remote-order", fmt.Sprintf("%s subscriber %d (%s) received %v for the publications %v", where, i, s.how, got, want), rp)
+			}
+		}
+		r.Case(fmt.Sprintf("remote/%d/%d/%v/%d", nRemote, nLocal, hows, m), nRemote >= 2)
+		r.Count("remote.rounds")
+		for _, s := range subs {
+			s.node.Kill(s.pid)
+		}
+		p.a.Kill(prod)
+		time.Sleep(5 * time.Millisecond)
+	}
 }
